@@ -1,3 +1,4 @@
+import Ebu.Proofs.Shutdown
 import Ebu.Spec.Conc
 import Ebu.Proofs.Conc
 /-!
@@ -21,5 +22,19 @@ theorem wait_returns_only_when_idle (progs : List (List Op)) (s s' : Sys) (h : R
     (hprog : th.prog = .wait :: prog) (hstep : s.stepAt i = some s') :
     liveJobs s = 0 ∧ pendingSpawns s = 0 :=
   Ebu.Conc.wait_returns_only_when_idle progs s s' h i th prog hth hpc hfr hprog hstep
+
+/-- Shutdown returns nil (or the store's close error) only when no asynchronous work is in
+flight, and only then – exactly once – closes the store; when it returns the context's error it
+has not closed it -/
+theorem shutdown_spec (s s' : Ebu.Shutdown.S) (pick : Bool) (o : Ebu.Shutdown.Outcome)
+    (h : Ebu.Shutdown.shutdown s pick = some (s', o)) :
+    (o = .nil_ ∨ o = .closeError → s.inflight = 0 ∧ s'.closes = s.closes + (if s.hasCloser then 1 else 0)) ∧
+    (o = .ctxError → s.cancelled = true ∧ s' = s) ∧ s'.inflight = s.inflight :=
+  Ebu.Shutdown.shutdown_spec s s' pick o h
+
+/-- … and it blocks exactly while work is in flight and the context is live -/
+theorem shutdown_blocks_iff (s : Ebu.Shutdown.S) (pick : Bool) :
+    Ebu.Shutdown.shutdown s pick = none ↔ (s.inflight ≠ 0 ∧ s.cancelled = false) :=
+  Ebu.Shutdown.shutdown_blocks_iff s pick
 
 end Ebu.Props.C06
